@@ -70,11 +70,34 @@ impl World for CnfWorld {
         let mut o = Rng::stream(run_seed, "ops");
         let mut s = Rng::stream(run_seed, "schedule");
         let wide = c.below(4) == 0;
-        let nv = if wide { 5 + c.below(6) } else { 1 + c.below(6) };
+        // one run in six is a large formula (11-60 variables, up to 90 clauses): eval/condition are then judged on
+        // 64 sampled assignments and the brute-force count is skipped; the hasher checks need no enumeration
+        let big = c.below(6) == 0;
+        let nv = if big { 11 + c.below(50) } else if wide { 5 + c.below(6) } else { 1 + c.below(6) };
         cfg.insert("nv".into(), nv as i64);
+        cfg.insert("big".into(), big as i64);
         cfg.insert("wseed".into(), (c.next() >> 2) as i64);
         // the empty formula must be reachable often enough
-        let mut ops = if c.below(12) == 0 { Vec::new() } else { gen_cnf_ops(&mut c, &mut o, nv, if wide { 14 } else { 8 }) };
+        let mut ops = if c.below(12) == 0 {
+            Vec::new()
+        } else if big {
+            let mut v = Vec::new();
+            for _ in 0..(5 + c.below(86)) {
+                let mut a = [0i64; 4];
+                let sz = match o.below(20) { 0 => 1, 1..=5 => 2, 6..=16 => 3, _ => 4 };
+                for slot in a.iter_mut().take(sz) {
+                    let x = o.below(nv) as i64 + 1;
+                    *slot = if o.bool() { x } else { -x };
+                }
+                v.push(Op { c: 0, k: K_CLAUSE, a });
+                if o.below(10) == 0 {
+                    v.push(Op { c: 0, k: K_CLAUSE_EXT, a });
+                }
+            }
+            v
+        } else {
+            gen_cnf_ops(&mut c, &mut o, nv, if wide { 14 } else { 8 })
+        };
         let ncallers = 1 + c.below(3);
         let len = 4 + o.below(if thorough { 120 } else { 50 });
         let w = [14u32, 30, 14, 16, 6, 8, 4, 6, 3, 3, 3, 4];
@@ -83,7 +106,7 @@ impl World for CnfWorld {
             ops.push(Op {
                 c: s.below(ncallers) as u8,
                 k,
-                a: [o.below(12) as i64, o.below(2) as i64, o.below(1024) as i64, o.below(1024) as i64],
+                a: [o.below(64) as i64, o.below(2) as i64, (o.next() >> 4) as i64, (o.next() >> 4) as i64],
             });
         }
         Plan {
@@ -98,7 +121,8 @@ impl World for CnfWorld {
 
     fn execute(&self, plan: &Plan, ctx: &mut Ctx) -> R {
         ctx.cur_prop = "C15";
-        let clauses_in: Vec<Vec<(usize, bool)>> = clauses_of_plan(&plan.ops, MAXV);
+        let big = plan.get_or("big", 0) != 0;
+        let clauses_in: Vec<Vec<(usize, bool)>> = clauses_of_plan(&plan.ops, if big { 64 } else { MAXV });
         let lits: Vec<Vec<Literal>> = clauses_in.iter().map(|c| c.iter().map(|(v, p)| lit(*v, *p)).collect()).collect();
         let cnf = Cnf::new(&lits);
         let nv = cnf.num_vars();
@@ -118,9 +142,17 @@ impl World for CnfWorld {
             ctx.check("C15", "cnf-normalisation-keeps-literal-set", sa == sb, || format!("clause {:?} was normalised to {:?}", b, a))?;
         }
         // eval on every assignment
-        let eval_ref = |cl: &[Vec<(usize, bool)>], m: u32| cl.iter().all(|c| c.iter().any(|(v, p)| ((m >> v) & 1 == 1) == *p));
+        let eval_ref = |cl: &[Vec<(usize, bool)>], m: u64| cl.iter().all(|c| c.iter().any(|(v, p)| ((m >> v) & 1 == 1) == *p));
+        // the assignments on which eval/condition are judged: all of them for small formulas, 64 sampled ones otherwise
+        let small = nv <= MAXV;
+        let points: Vec<u64> = if small {
+            (0..(1u64 << nv)).collect()
+        } else {
+            let mut pr = Rng::new(plan.get("wseed") as u64 ^ 0x5eed);
+            (0..64).map(|_| pr.next() & ((1u64 << nv) - 1)).collect()
+        };
         let mut models = Vec::new();
-        for m in 0..(1u32 << nv) {
+        for m in points.iter().copied() {
             let a: Vec<bool> = (0..nv).map(|v| (m >> v) & 1 == 1).collect();
             let got = cnf.eval(&a);
             let want = eval_ref(&clauses_in, m);
@@ -129,8 +161,8 @@ impl World for CnfWorld {
                 models.push(m);
             }
         }
-        // brute-force weighted count, exact weights
-        {
+        // brute-force weighted count, exact weights (small formulas only: it enumerates all assignments)
+        if small {
             let mut wr = Rng::new(plan.get("wseed") as u64);
             let mut wmap_r = HashMap::new();
             let mut wmap_f = HashMap::new();
@@ -195,6 +227,10 @@ impl World for CnfWorld {
         // PartialModel / VarSet under test and their references
         let mut pm = PartialModel::new(nv);
         let mut pm_ref: Vec<Option<bool>> = vec![None; nv];
+        // a wide partial model (150 variables) under the same history
+        const WIDE: usize = 150;
+        let mut pmw = PartialModel::new(WIDE);
+        let mut pmw_ref: Vec<Option<bool>> = vec![None; WIDE];
         let mut vs = [VarSet::new(), VarSet::new_with_num_vars(nv)];
         let mut vs_ref: [BTreeSet<usize>; 2] = [BTreeSet::new(), BTreeSet::new()];
         let mut cur_cnf = cnf.clone();
@@ -282,6 +318,9 @@ impl World for CnfWorld {
                     }
                     pm.set(VarLabel::new(var as u64), pol);
                     pm_ref[var] = Some(pol);
+                    let wv = (op.a[2].unsigned_abs() as usize) % WIDE;
+                    pmw.set(VarLabel::new(wv as u64), pol);
+                    pmw_ref[wv] = Some(pol);
                     ctx.ev(55, &[var as u64, pol as u64]);
                 }
                 K_MUNSET => {
@@ -290,6 +329,9 @@ impl World for CnfWorld {
                     }
                     pm.unset(VarLabel::new(var as u64));
                     pm_ref[var] = None;
+                    let wv = (op.a[2].unsigned_abs() as usize) % WIDE;
+                    pmw.unset(VarLabel::new(wv as u64));
+                    pmw_ref[wv] = None;
                     ctx.ev(56, &[var as u64]);
                 }
                 K_MCHECK => {
@@ -309,6 +351,16 @@ impl World for CnfWorld {
                     got.sort();
                     let want: Vec<(usize, bool)> = (0..nv).filter_map(|v| pm_ref[v].map(|b| (v, b))).collect();
                     ctx.check("C15", "model-assignment-iter", got == want, || format!("assignment_iter yields {:?}, reference {:?}", got, want))?;
+                    // the wide model
+                    {
+                        let mut got: Vec<(usize, bool)> = pmw.assignment_iter().map(|l| (l.label().value_usize(), l.polarity())).collect();
+                        got.sort();
+                        let want_w: Vec<(usize, bool)> = (0..WIDE).filter_map(|v| pmw_ref[v].map(|b| (v, b))).collect();
+                        ctx.check("C15", "model-assignment-iter", got == want_w, || format!("wide model: assignment_iter yields {:?}, reference {:?}", got, want_w))?;
+                        let probe = (op.a[3].unsigned_abs() as usize) % WIDE;
+                        ctx.check("C15", "model-get", pmw.get(VarLabel::new(probe as u64)) == pmw_ref[probe], || format!("wide model: get(x{probe}) = {:?}, reference {:?}", pmw.get(VarLabel::new(probe as u64)), pmw_ref[probe]))?;
+                        ctx.check("C15", "model-equality", pmw == PartialModel::from_assignments(&pmw_ref), || "wide model differs from a freshly built one with the same contents".to_string())?;
+                    }
                     // equality is set equality, whatever the history of the object
                     let rebuilt = PartialModel::from_assignments(&pm_ref);
                     ctx.check("C15", "model-equality", pm == rebuilt && rebuilt == pm, || format!("a PartialModel with contents {:?} does not compare equal to a freshly built one with the same contents", pm_ref))?;
@@ -354,7 +406,7 @@ impl World for CnfWorld {
                 }
                 K_VS_INSERT | K_VS_REMOVE => {
                     let k = (op.a[1] & 1) as usize;
-                    let v = (op.a[2].unsigned_abs() as usize) % 40;
+                    let v = (op.a[2].unsigned_abs() as usize) % 200; // crosses the 32/64/128-bit word boundaries of the bit sets
                     if op.k == K_VS_INSERT {
                         vs[k].insert(VarLabel::new(v as u64));
                         vs_ref[k].insert(v);
@@ -385,11 +437,11 @@ impl World for CnfWorld {
                         .filter(|c| !c.contains(&(var, pol)))
                         .map(|c| c.iter().filter(|(v, _)| *v != var).copied().collect())
                         .collect();
-                    for m in 0..(1u32 << nv) {
+                    for m in points.iter().copied() {
                         let a: Vec<bool> = (0..nv).map(|v| (m >> v) & 1 == 1).collect();
                         let got = next.eval(&a);
                         // definition: the current formula with x_var := pol
-                        let m2 = if pol { m | (1 << var) } else { m & !(1 << var) };
+                        let m2 = if pol { m | (1u64 << var) } else { m & !(1u64 << var) };
                         let want = eval_ref(&cur_ref, m2);
                         ctx.check("C15", "cnf-condition", got == want, || {
                             format!("({:?}).condition(x{var}={pol}) evaluates to {got} on {:?}; the restricted formula gives {want}", cur_ref, a)
